@@ -1009,6 +1009,12 @@ class _Fn:
                 cur = env.get(s.target.id, NONE)
                 listlike = isinstance(s.value, (ast.List, ast.ListComp)) or (isinstance(s.value, ast.Call) and isinstance(s.value.func, ast.Name)
                                                                              and s.value.func.id in ("list", "sorted")) or v.store is not None
+                if not listlike and isinstance(s.op, ast.Add) and isinstance(s.value, ast.Attribute):
+                    # `xs += node.after`: when the right-hand side is a list-typed field the target is a list too, and `+=`
+                    # extends it in place — a mutation of whatever `xs` aliases
+                    bv, _d = self.ev(s.value.value, env, handlers, dirty)
+                    ann_ = self.prog.fields(bv.cls).get(s.value.attr) if bv.cls and bv.cls in self.prog.classes else None
+                    listlike = bool(ann_) and ann_[0].replace(" ", "").lower().startswith(("list[", "list"))
                 if isinstance(cur, Val) and cur.own and listlike:
                     dirty = self.mutate(dirty, cur, s, "augassign", tcls=cur.cls, fld=s.target.id)
                 env[s.target.id] = (cur if isinstance(cur, Val) else NONE) | Val(frozenset(), v.deep)
